@@ -2,6 +2,7 @@
 C15 round 6 helper lemmas: the size of the ammo ring (repair 4cfc662: `config.CheckSpread`).
 -/
 import Pandora.Proofs.C15Ring
+import Pandora.Proofs.C15Shoot
 
 namespace Pandora.Proofs.C15
 open Pandora.Model.C15 Pandora.Spec.C15
@@ -63,5 +64,34 @@ theorem decodeAmmo_len {ρ} (reqs : List Char → Option ρ) (scs : List Scenari
         simp [List.map_map, Function.comp]
       rw [e, foldl_cast_sum] at hsz
       omega
+
+/-! ### every executed step is reported exactly once (seed C15-r6-1: a second, failed report of a step that succeeded) -/
+
+variable {Req : Type}
+
+def isSample : Ev Req → Bool
+  | .sample _ _ _ => true
+  | _ => false
+
+def isFailedSample : Ev Req → Bool
+  | .sample _ _ true => true
+  | _ => false
+
+theorem okEvents_samples (scName : String) (st : Step ReqDef) (r : Req) (c : Int) :
+    (okEvents scName st r c).countP isSample = 1 ∧ (okEvents scName st r c).countP isFailedSample = 0 := by
+  unfold okEvents
+  by_cases h : st.sleep > 0 <;> simp [h, isSample, isFailedSample, List.countP_cons]
+
+theorem okRun_samples (scName : String) : ∀ (steps : List (Step ReqDef)) (rcs : List (Req × Int)),
+    rcs.length = steps.length →
+    (okRun scName steps rcs).countP isSample = steps.length ∧ (okRun scName steps rcs).countP isFailedSample = 0
+  | [], [], _ => by simp [okRun]
+  | [], _ :: _, h => by simp at h
+  | _ :: _, [], h => by simp at h
+  | st :: steps, (r, c) :: rcs, h => by
+    have ih := okRun_samples scName steps rcs (by simpa using h)
+    have h1 := okEvents_samples scName st r c
+    simp only [okRun, List.countP_append, h1.1, h1.2, ih.1, ih.2, List.length_cons]
+    exact ⟨by omega, trivial⟩
 
 end Pandora.Proofs.C15
